@@ -12,6 +12,8 @@ statement `C14_every_file_reported` is a theorem: no hypothesis on `clean` at al
 -/
 import Paroxy.Proofs.Collect
 import Paroxy.Props.C11
+import Paroxy.Props.C09
+import Paroxy.Proofs.MetaAstRow
 namespace Paroxy.Props.C14
 open Paroxy Paroxy.DB Paroxy.Collect
 
@@ -256,5 +258,54 @@ example : tagMain syntaxErrorExt (fun _ ls => [{ name := [109], spans := (ls.fla
     (fun src t => ⟨[], rfl⟩) [120, 10]).2.1 _ rfl
   rw [h]
   rfl
+
+/-! ### The taxon clause, with the real table (`Gen.TaxonomyCodes` is regenerated from taxonomy.tsv) -/
+
+section MetaAst
+open Paroxy.Taxo Paroxy.Spec.Taxo Paroxy.MetaAst
+
+/-- **C14 (single taxon `meta/ast/<ErrorName>`), on the default taxonomy.** Let `rows` be the default
+table as `Taxonomy.__init__` reads it. Under oracle agreement on that row — the regex engine says that
+`ast_construction:(.+)` matches the label `ast_construction:<E>` entirely and expands `meta/ast/\1` to
+`meta/ast/<E>`; the label does not "look like a taxon"; no OTHER row applies to it (three facts about
+the `regex` engine, evaluated with the real engine by the harness for every error name met) — the
+translation of the single label of an invalid (or empty) program is exactly the taxon `meta/ast/<E>`,
+in every state of the taxonomy instance (`C09_same_on_every_call`). The membership of the row in the
+table is NOT a hypothesis: it is `astLine_in_default_table`. -/
+theorem C14_meta_ast (o : Oracle) (rows : List Row) (E : Str)
+    (hrows : parseTsv defaultText = .ok rows)
+    (hlooks : o.looks (astPrefix ++ E) = false)
+    (hfull : o.full astRow (astPrefix ++ E) = some (metaAstPrefix ++ E))
+    (hothers : ∀ r ∈ rows, r ≠ astRow → rowResult o r (astPrefix ++ E) = none) :
+    astRow ∈ rows ∧ ∀ x, x ∈ translate o rows (astPrefix ++ E) ↔ x = metaAstPrefix ++ E := by
+  have hmem : astRow ∈ rows := by
+    unfold parseTsv Taxo.parseAll at hrows
+    split at hrows
+    · simp only [Except.ok.injEq] at hrows
+      rw [← hrows, ← astRow_of_line.1]
+      apply List.mem_map_of_mem
+      have h1 : astLine ∈ rawLines defaultText := by
+        have := astLine_in_default_table
+        simpa using this
+      exact (List.mergeSort_perm _ _).mem_iff.mpr h1
+    · cases hrows
+  refine ⟨hmem, fun x => ?_⟩
+  rw [C09.C09_exact]
+  have hrow : rowResult o astRow (astPrefix ++ E) = some (metaAstPrefix ++ E) := by
+    unfold rowResult
+    rw [astRow_of_line.2]
+    simpa using hfull
+  constructor
+  · rintro (⟨hl, -⟩ | ⟨-, r, hr, hres⟩)
+    · rw [hlooks] at hl; cases hl
+    · by_cases hra : r = astRow
+      · rw [hra, hrow] at hres
+        simp only [Option.some.injEq] at hres
+        exact hres.symm
+      · rw [hothers r hr hra] at hres; cases hres
+  · intro hx
+    exact Or.inr ⟨hlooks, astRow, hmem, by rw [hrow, hx]⟩
+
+end MetaAst
 
 end Paroxy.Props.C14
